@@ -13,6 +13,21 @@ macro_rules! notation {
 	(write, $w:ident, $v:expr, $_t:ty) => { $v._write($w)?; };
 	// rules used for reading
 	(read, $_r:ident, $_p:ident, $_t:ident $(<$_it:tt> $([$_iat:tt])?)? ;$_nw:ident = $nwe:expr) => { $nwe };
+	(read, $r:ident, $p:ident, Vec<$it:tt> {$l:expr; slots} ) => {{
+		// `$l` counts slots, not items: an item takes up `.slots()` of them
+		let len = $l;
+		let mut vec = Vec::with_capacity(len as usize);
+		let mut slots = 0;
+		while slots < len as usize {
+			let i = notation!(read, $r, $p, $it);
+			slots += i.slots();
+			vec.push(i);
+		}
+		if slots != len as usize {
+			return Err(std::io::Error::other(format!("the last item ends at slot {}, but there are only {} slots", slots, len)));
+		}
+		vec
+	}};
 	(read, $r:ident, $p:ident, Vec<$it:tt> $([$iat:tt])? $({$l:expr})? ) => {{
 		$( let len = notation!(read, $r, $p, $iat); )?
 		$( let len = $l; )?
@@ -70,7 +85,7 @@ macro_rules! notation {
 			$( const $c_0:ident: $ct_0:ident = $cv_0:expr, )*
 			$(
 				$( #[$id:meta] )?
-				mut $i:ident: $it:ident $( <$iit:tt> $([$iat:tt])? $({$l:expr})? )? $( ;$ps:expr )?,
+				mut $i:ident: $it:ident $( <$iit:tt> $([$iat:tt])? $({$l:expr $(; $sl:ident)?})? )? $( ;$ps:expr )?,
 				$( const $c_1:ident: $ct_1:ident = $cv_1:expr, )*
 			)*
 		}
@@ -99,7 +114,7 @@ macro_rules! notation {
 			fn _read(reader: &mut impl std::io::Read, pool: Option<&Vec<CpInfo>>) -> std::io::Result<$n> {
 				$( let $c_0 = notation!(read, reader, pool, $ct_0); notation!(check, $c_0, $cv_0); )*
 				$(
-					let $i = notation!(read, reader, pool, $it $( <$iit> $([$iat])? $({$l})? )?);
+					let $i = notation!(read, reader, pool, $it $( <$iit> $([$iat])? $({$l $(; $sl)?})? )?);
 					$( let pool = $ps; )?
 					$( let $c_1 = notation!(read, reader, pool, $ct_1); notation!(check, $c_1, $cv_1); )*
 				)*
@@ -132,7 +147,7 @@ macro_rules! notation {
 					$( const $c_0:ident: $ct_0:ident = $cv_0:expr, )*
 					$(
 						$( #[$id:meta] )?
-						mut $i:ident: $it:ident $( <$iit:tt> $([$iat:tt])? $({$l:expr})? )? $($nw:ident = $nwe:expr)?,
+						mut $i:ident: $it:ident $( <$iit:tt> $([$iat:tt])? $({$l:expr $(; $sl:ident)?})? )? $($nw:ident = $nwe:expr)?,
 						$( const $c_1:ident: $ct_1:ident = $cv_1:expr, )*
 					)*
 				},
@@ -180,7 +195,7 @@ macro_rules! notation {
 					$( $tm $( if $tme )?=> {
 						$( let $c_0 = notation!(read, reader, pool, $ct_0); notation!(check, $c_0, $cv_0); )*
 						$(
-							let $i = notation!(read, reader, pool, $it $( <$iit> $([$iat])? $({$l})? )? $(;$nw = $nwe)?);
+							let $i = notation!(read, reader, pool, $it $( <$iit> $([$iat])? $({$l $(; $sl)?})? )? $(;$nw = $nwe)?);
 							$( let $c_1 = notation!(read, reader, pool, $ct_1); notation!(check, $c_1, $cv_1); )*
 						)*
 						let _ = pool;
